@@ -197,39 +197,46 @@ def run(ctx):
         X = qx.rand_int(rng, n, k, -3, 3)
         for kind in (0, 1, 2):
             Tk = [[(T[i][j] if ((j <= i) if kind == 0 else (j >= i)) else Q()) for j in range(n)] for i in range(n)]
-            Bm = qx.mm(Tk, X); inp = {'kind': ['lower', 'upper', 'component-form upper'][kind], 'n': n, 'rhs': k, 'diag_scales': [str(s) for s in sc]}
-            try:
-                if kind == 0: Xo = qx.from_np(solver._solve_lower_triangular_quat(qx.to_np(Tk), qx.to_np(Bm)))
-                elif kind == 1: Xo = qx.from_np(solver._solve_upper_triangular_quat(qx.to_np(Tk), qx.to_np(Bm)))
-                else:
-                    Rc = [np.array(c, dtype=float) for c in qx.comps(Tk)]; bc = [np.array(c, dtype=float) for c in qx.comps(Bm)]
-                    o = utils.UtriangleQsparse(*Rc, *bc); Xo = qx.from_comps(*[qx.real_from_np(c) for c in o])
-            except Exception as e:
-                viol(f'C16:trisolve:{inp["kind"]}:raises', f'triangular solve raised {e!r} ({k} right-hand side(s))', inp); continue
-            Rm = qx.sub(qx.mm(Tk, Xo), Bm)
-            # row-wise relative residual: every equation is solved relative to ITS right-hand side
-            res = Fraction(0); scale = 1
-            for i in range(n):
-                ri = max(abs(c) for q in Rm[i] for c in q.t()); bi = max([abs(c) for q in Bm[i] for c in q.t()] + [abs(c) * max(abs(cc) for xr in Xo for qq in xr for cc in qq.t()) for q in Tk[i] for c in q.t()])
-                if bi > 0: res = max(res, Fraction(ri) / Fraction(bi))
-            # the eps-regularised inverse of the component form has relative defect eps / |t_ii|^2 per row
-            allowed = Fraction(1, 10 ** 9) if kind < 2 else max(Fraction(1, 10 ** 9), max(Fraction(EPS) / T[i][i].n2() for i in range(n)) * 4 * n * n)
-            if res > allowed * scale:
-                sig = f'C16:trisolve:{inp["kind"]}:residual'
-                if kind == 2:
-                    # is the output what exact backward substitution WITH the +eps regularisation gives?  then the defect is the documented formula's
-                    Xe = [[None] * k for _ in range(n)]
-                    for i in range(n - 1, -1, -1):
-                        d = Tk[i][i]; dinv = d.conj() * (1 / (Fraction(d.n2()) + Fraction(EPS)))
-                        for c in range(k):
-                            acc = Bm[i][c]
-                            for j in range(i + 1, n): acc = acc - Tk[i][j] * Xe[j][c]
-                            Xe[i][c] = dinv * acc
-                    if qx.maxabs(qx.sub(Xe, Xo)) <= Fraction(1, 10 ** 6) * max(1, qx.maxabs(Xe)): sig += ':eps-regularisation'
-                viol(sig, f'T X != B (relative residual {float(res / scale):.2e}, {k} right-hand side(s), diagonal scale {float(sc[0]):.1e})', inp, float(res / scale))
-            ctx.count(('tri', kind, [a.t() for r in Tk for a in r], k), True)
-            if uniform: tterms.append(f'({kind}%nat, {n}%nat, {k}%nat, {qmat_lit(Tk)}, {qmat_lit(Bm)}, {qmat_lit(Xo)})')
-            else: ctx.cov['discarded'] += 1     # mixed diagonal scales: ill-conditioned, residual oracle only
+            Bprod = qx.mm(Tk, X)
+            rhs_list = [('product', Bprod)]
+            # right-hand sides with exactly zero rows next to non-zero ones (unit vectors: the columns of the inverse; one interior row removed)
+            rhs_list.append(('unit-vectors', [[(Q(1) if i == c else Q()) for c in range(k)] for i in range(n)]))
+            if n >= 3: rhs_list.append(('zero-interior-row', [([Q() for _ in range(k)] if i == n // 2 else Bprod[i]) for i in range(n)]))
+            if n >= 2: rhs_list.append(('only-first-row' if kind == 0 else 'only-last-row', [(Bprod[i] if i == (0 if kind == 0 else n - 1) else [Q() for _ in range(k)]) for i in range(n)]))
+            for rname, Bm in rhs_list:
+                inp = {'kind': ['lower', 'upper', 'component-form upper'][kind], 'n': n, 'rhs': k, 'rhs pattern': rname, 'diag_scales': [str(s) for s in sc]}
+                try:
+                    if kind == 0: Xo = qx.from_np(solver._solve_lower_triangular_quat(qx.to_np(Tk), qx.to_np(Bm)))
+                    elif kind == 1: Xo = qx.from_np(solver._solve_upper_triangular_quat(qx.to_np(Tk), qx.to_np(Bm)))
+                    else:
+                        Rc = [np.array(c, dtype=float) for c in qx.comps(Tk)]; bc = [np.array(c, dtype=float) for c in qx.comps(Bm)]
+                        o = utils.UtriangleQsparse(*Rc, *bc); Xo = qx.from_comps(*[qx.real_from_np(c) for c in o])
+                except Exception as e:
+                    viol(f'C16:trisolve:{inp["kind"]}:raises', f'triangular solve raised {e!r} ({k} right-hand side(s))', inp); continue
+                Rm = qx.sub(qx.mm(Tk, Xo), Bm)
+                # row-wise relative residual: every equation is solved relative to ITS right-hand side
+                res = Fraction(0); scale = 1
+                for i in range(n):
+                    ri = max(abs(c) for q in Rm[i] for c in q.t()); bi = max([abs(c) for q in Bm[i] for c in q.t()] + [abs(c) * max(abs(cc) for xr in Xo for qq in xr for cc in qq.t()) for q in Tk[i] for c in q.t()])
+                    if bi > 0: res = max(res, Fraction(ri) / Fraction(bi))
+                # the eps-regularised inverse of the component form has relative defect eps / |t_ii|^2 per row
+                allowed = Fraction(1, 10 ** 9) if kind < 2 else max(Fraction(1, 10 ** 9), max(Fraction(EPS) / T[i][i].n2() for i in range(n)) * 4 * n * n)
+                if res > allowed * scale:
+                    sig = f'C16:trisolve:{inp["kind"]}:residual'
+                    if kind == 2:
+                        # is the output what exact backward substitution WITH the +eps regularisation gives?  then the defect is the documented formula's
+                        Xe = [[None] * k for _ in range(n)]
+                        for i in range(n - 1, -1, -1):
+                            d = Tk[i][i]; dinv = d.conj() * (1 / (Fraction(d.n2()) + Fraction(EPS)))
+                            for c in range(k):
+                                acc = Bm[i][c]
+                                for j in range(i + 1, n): acc = acc - Tk[i][j] * Xe[j][c]
+                                Xe[i][c] = dinv * acc
+                        if qx.maxabs(qx.sub(Xe, Xo)) <= Fraction(1, 10 ** 6) * max(1, qx.maxabs(Xe)): sig += ':eps-regularisation'
+                    viol(sig, f'T X != B (relative residual {float(res / scale):.2e}, {k} right-hand side(s), diagonal scale {float(sc[0]):.1e})', inp, float(res / scale))
+                ctx.count(('tri', kind, [a.t() for r in Tk for a in r], k), True)
+                if uniform: tterms.append(f'({kind}%nat, {n}%nat, {k}%nat, {qmat_lit(Tk)}, {qmat_lit(Bm)}, {qmat_lit(Xo)})')
+                else: ctx.cov['discarded'] += 1     # mixed diagonal scales: ill-conditioned, residual oracle only
     # deterministic probe of the eps-regularised inverse: tiny diagonal, O(1) off-diagonal
     Tp = [[Q(Fraction(1, 2 ** 20)), Q(1)], [Q(), Q(0, Fraction(1, 2 ** 20))]]; Xp = [[Q(1)], [Q(0, 1)]]; Bp = qx.mm(Tp, Xp)
     o = utils.UtriangleQsparse(*[np.array(c, dtype=float) for c in qx.comps(Tp)], *[np.array(c, dtype=float) for c in qx.comps(Bp)])
